@@ -131,9 +131,9 @@ Definition site_justification : list jentry := [
   J "_common.py" "_dot" 1 KGcxs ARaw FDefault FDefault
     (Unjustified "csr @ ndarray sparse kernel: rows filled in column order 0..n-1 (read; not modelled)");
   J "_common.py" "_dot" 2 KGcxs ARaw FDefault FDefault
-    (Unjustified "csc @ ndarray sparse kernel (read; not modelled)");
+    (Justified RowsSortedByKernel "csc @ ndarray / ndarray @ csr sparse kernel: every touched position of an output column is emitted once (membership test mask[ind] == -1), exactly the positions _csc_ndarray_count_nnz counted, and each segment is argsorted (fix 03cd171)");
   J "_common.py" "_dot" 3 KGcxs ARaw FDefault FDefault
-    (Unjustified "ndarray @ csr via transposed csc kernel (read; not modelled)");
+    (Justified RowsSortedByKernel "csc @ ndarray / ndarray @ csr sparse kernel: every touched position of an output column is emitted once (membership test mask[ind] == -1), exactly the positions _csc_ndarray_count_nnz counted, and each segment is argsorted (fix 03cd171)");
   J "_common.py" "_dot" 4 KGcxs ARaw FDefault FDefault
     (Unjustified "ndarray @ csc via transposed csr kernel (read; not modelled)");
   J "_common.py" "_dot" 5 KCoo ARaw FFalse FFalse
@@ -186,7 +186,7 @@ Definition site_justification : list jentry := [
   J "_compressed/convert.py" "_resize" 1 KGcxs ARaw FDefault FDefault
     (Unjustified "1-d GCXS from linearised coordinates (model of C08; judged at run time)");
   J "_compressed/indexing.py" "getitem" 0 KGcxs AMaybeRaw FDefault FDefault
-    (Unjustified "GCXS indexing kernels (model of C02; judged at run time)");
+    (Refuted "gcxs_getitem_newaxis_with_int_malformed");
   (* ---- _coo/common.py *)
   J "_coo/common.py" "concatenate" 1 KCoo ARaw (FExpr "axis == 0") FFalse
     (Justified FromSortedOffsetConcat "coords of block i offset by the extents of blocks < i along `axis`; sorted exactly when axis = 0; blocks have disjoint coordinate ranges along `axis` for every axis");
@@ -454,6 +454,38 @@ Definition dot_csr_csr (a b : gcxs Z) : gcxs Z :=
   let indptr := fold_left (fun acc r => acc ++ [last acc 0 + Z.of_nat (length r)]) rows [0] in
   let flat := concat rows in
   mkGCXS [n_row; n_col] [0] (map snd flat) (map fst flat) indptr 0.
+
+(* _common._dot_csc_ndarray_type_sparse (a: 2-d, compressed axis 1; b dense, given by its columns):
+   for every column of b the same linked list collects the touched rows of a; since fix 03cd171
+   every touched position is stored (cancelled sums included, pruned later by the caller) and the
+   segment is sorted.  indptr: the code fills it beforehand with _csc_ndarray_count_nnz (number of
+   distinct touched positions per column) — the number of entries emitted here. *)
+Fixpoint drain_all (n : nat) (nxt sums : list Z) (head : Z) (acc : list (Z * Z)) : list (Z * Z) :=
+  match n with
+  | O => acc
+  | S n' => drain_all n' (upd nxt head (-1)) (upd sums head 0) (znth nxt head 0) (acc ++ [(head, znth sums head 0)])
+  end.
+
+Definition csc_nd_col_raw (n_rows : Z) (a : gcxs Z) (bcol : list Z) : list (Z * Z) :=
+  let init : ll_state := (repeat (-1) (Z.to_nat n_rows), repeat 0 (Z.to_nat n_rows), -2, 0) in
+  let st := fold_left (fun st (ju : Z * Z) =>
+              let '(j, u) := ju in
+              if u =? 0 then st
+              else fold_left (fun st (kv : Z * Z) => touch st (fst kv) (u * snd kv))
+                     (combine (row_slice (g_indices a) (g_indptr a) j) (row_slice (g_data a) (g_indptr a) j)) st)
+            (combine (zrange (Z.of_nat (length bcol))) bcol) init in
+  let '(nxt, sums, head, len) := st in
+  drain_all (Z.to_nat len) nxt sums head [].
+
+Definition csc_nd_col (n_rows : Z) (a : gcxs Z) (bcol : list Z) : list (Z * Z) :=
+  sort_row (csc_nd_col_raw n_rows a bcol).
+
+Definition dot_csc_ndarray (a : gcxs Z) (bcols : list (list Z)) : gcxs Z :=
+  let n_rows := znth (g_shape a) 0 0 in
+  let cols := map (csc_nd_col n_rows a) bcols in
+  let indptr := fold_left (fun acc r => acc ++ [last acc 0 + Z.of_nat (length r)]) cols [0] in
+  let flat := concat cols in
+  mkGCXS [n_rows; Z.of_nat (length bcols)] [1] (map snd flat) (map fst flat) indptr 0.
 
 (* GCXS(..., prune=True) -> GCXS._prune: drop fill-valued entries, recount indptr per row *)
 Definition gcxs_prune2 (g : gcxs Z) : gcxs Z :=
